@@ -12,6 +12,8 @@ import (
 	"strings"
 	"sync"
 	"time"
+
+	log "github.com/go-spring/log"
 )
 
 // Violation is one oracle failure.
@@ -291,6 +293,7 @@ func main() {
 				os.Exit(2)
 			}
 		}
+		log.VerifResetGlobals() // first call: deep snapshot of the package state at process start (after the harness's own registrations)
 		go watchdog()
 		for _, pd := range parts {
 			if pd.prop != *prop || (*tier == "quick" && !strings.Contains(pd.tiers, "q")) {
@@ -315,6 +318,7 @@ func main() {
 		part := fs.String("part", "", "part name")
 		cs := fs.String("case", "", "case json")
 		fs.Parse(os.Args[2:])
+		log.VerifResetGlobals()
 		for _, pd := range parts {
 			if pd.name == *part {
 				if pd.replay == nil {
